@@ -17,6 +17,8 @@ KINDS = {
     "det_nox0": {"noisy": False, "x0": False},
     "noisy_x0": {"noisy": True, "x0": True},
     "noisy_nox0": {"noisy": True, "x0": False},
+    # the valid seed 0 (a falsy value): must seed like any other
+    "det_nox0_seed0": {"noisy": False, "x0": False, "abs_seed": 0},
 }
 # escalation problems: used only when a schedule changed the INTERNAL signals of the run under test (GP
 # hyperparameters after a fit, hedge probabilities, poll bases) without changing the evaluated points of the
@@ -106,7 +108,7 @@ def _replay(job):
     def step(op):
         nonlocal T, F, res
         if op == "CT":
-            opts = {"display": "off", "random_seed": 100 + sd + k.get("seed", 0),
+            opts = {"display": "off", "random_seed": k["abs_seed"] if "abs_seed" in k else 100 + sd + k.get("seed", 0),
                     "max_fun_evals": k.get("budget", 70 if k["noisy"] else 45), "noise_final_samples": 3}
             x0 = np.array([[1.5, -1.0]]) if k["x0"] else None
             T = BADS(target, x0, np.full((1, D), -5.0), np.full((1, D), 5.0), np.full((1, D), -2.0),
